@@ -2,6 +2,7 @@ import Bw.Diff
 import Bw.Validators
 import Bw.Lookup
 import Bw.Gen.Detectors
+import Bw.Gen.Misc
 /-! Model of `parse_file` / `parse_blocks` (`src/blocks.rs`), `detect_validators` / `run`
     (`src/validators/mod.rs`) and the exit status of `main`. -/
 namespace Bw.Pipe
@@ -141,6 +142,7 @@ inductive AsyncOut where
   | pass                          -- nil / "OK"
   | message (data : List (String × Text))
   | echo                          -- the script returns its arguments (serialised by `luaEcho`)
+  | reply (r : Text)              -- the endpoint's reply text, classified by `isOkReply`
   | fail (e : ErrKind)
 deriving Repr
 
@@ -154,6 +156,26 @@ def insertAttr (a : Text × Text) : List (Text × Text) → List (Text × Text)
 /-- attributes as the script sees them: one entry per name (last duplicate wins), sorted by name -/
 def attrsSorted (attrs : List (Text × Text)) : List (Text × Text) :=
   ((attrs.map (·.1)).eraseDups.map (fun k => (k, (attrGet attrs k).getD []))).foldl (fun acc a => insertAttr a acc) []
+
+/-- `message.eq_ignore_ascii_case("OK") || message.eq_ignore_ascii_case("OK.")` over the regenerated literals -/
+def isOkReply (r : Text) : Bool := Gen.aiOkReplies.any (fun k => lower k.toList = lower r)
+
+/-- split the `format!` frame of the user message at its two placeholders -/
+def splitAt (pat : Text) : Text → Option (Text × Text)
+  | [] => if pat.isEmpty then some ([], []) else none
+  | c :: cs =>
+    match stripPrefix pat (c :: cs) with
+    | some rest => some ([], rest)
+    | none => (splitAt pat cs).map (fun (a, b) => (c :: a, b))
+
+/-- the user message of the chat-completion request -/
+def aiUserMessage (condition content : Text) : Text :=
+  match splitAt "{condition}".toList Gen.aiUserFrame.toList with
+  | none => Gen.aiUserFrame.toList
+  | some (pre, rest) =>
+    match splitAt "{block_content}".toList rest with
+    | none => pre ++ condition ++ rest
+    | some (mid, post) => pre ++ condition ++ mid ++ content ++ post
 
 def sep1 : Char := Char.ofNat 31
 def sep2 : Char := Char.ofNat 30
@@ -191,19 +213,22 @@ def checkBlock (re : Regex) (oracle : AsyncOracle) (v : String) (f : FileCtx) (b
       | .pass => .ok none
       | .message data => finish data
       | .echo => finish [("script", a), ("lua_error", luaEcho f.path b.block.tagStart.line b.block.attrs c)]
+      | .reply _ => .error .oracleMiss
   | "check-ai", some a =>
     if (trim a).isEmpty then .error .emptyAiCondition else
     match blockContent re f.text b.block "check-ai-pattern" .aiError with
     | .error e => .error e
     | .ok _ =>
+      let finish (data : List (String × Text)) : Except ErrKind (Option Diag) :=
+        match severityOf b.block.attrs with
+        | .error e => .error e
+        | .ok sev => .ok (some (tagDiag "check-ai" b.block sev data))
       match oracle "check-ai" f.path b.block with
       | .fail e => .error e
       | .pass => .ok none
       | .echo => .error .oracleMiss
-      | .message data =>
-        match severityOf b.block.attrs with
-        | .error e => .error e
-        | .ok sev => .ok (some (tagDiag "check-ai" b.block sev data))
+      | .message data => finish data
+      | .reply r => if isOkReply r then .ok none else finish [("condition", trim a), ("ai_message", r)]
   | _, _ => .ok none
 
 /-- `named_modified_blocks.contains_key(&(file, name))`: some block of that file with that name has modified content -/
@@ -227,6 +252,18 @@ def affectsFile (ctx : List FileCtx) (f : FileCtx) : List (Except ErrKind (List 
           | .error e => .error e
           | .ok sev => .ok (tagDiag "affects" b.block sev
               [("affected_block_file_path", fp.getD f.path), ("affected_block_name", name)])))
+
+/-- the user messages of the requests check-ai sends: one per block with a non-blank condition whose
+    content selection succeeds -/
+def aiRequests (re : Regex) (ctx : List FileCtx) : List Text :=
+  (ctx.map (fun f => f.blocks.filterMap (fun b =>
+    match attrGet b.block.attrs "check-ai".toList with
+    | none => none
+    | some a =>
+      if (trim a).isEmpty then none else
+      match blockContent re f.text b.block "check-ai-pattern" .aiError with
+      | .error _ => none
+      | .ok c => some (aiUserMessage a c)))).flatten
 
 /-- all per-block outcomes of one validator, tagged with the file -/
 def validatorResults (re : Regex) (oracle : AsyncOracle) (ctx : List FileCtx) (v : String) :
